@@ -65,9 +65,10 @@ static std::string theta_wrap(const void* p, size_t n, bool use) {
   return accept([&] { return wrapped_compact_theta_sketch::wrap(p, n); }, theta_wrap_readout, theta_use<wrapped_compact_theta_sketch>, use);
 }
 
-enum TK { T_EMPTY, T_SINGLE, T_EXACT, T_EXACT_UNORD, T_EST, T_EST_UNORD, T_V4_EXACT, T_V4_EST, T_EMPTY_P };
+enum TK { T_EMPTY, T_SINGLE, T_EXACT, T_EXACT_UNORD, T_EST, T_EST_UNORD, T_V4_EXACT, T_V4_EST, T_EMPTY_P, T_BIG, T_BIG_V4 };   // BIG: lg_k 20..24, a few entries
 static update_theta_sketch theta_state(Rng& r, bool T, int kind) {
-  const uint8_t lg_k = static_cast<uint8_t>(r.range(5, T ? 8 : 6));
+  const bool big = kind == T_BIG || kind == T_BIG_V4;   // large nominal configuration, tiny content
+  const uint8_t lg_k = static_cast<uint8_t>(big ? r.range(20, 24) : r.range(5, T ? 8 : 6));
   float p = 1.0f;
   if (kind == T_EMPTY_P) p = 0.5f;
   auto s = update_theta_sketch::builder().set_lg_k(lg_k).set_p(p).build();
@@ -76,6 +77,7 @@ static update_theta_sketch theta_state(Rng& r, bool T, int kind) {
   switch (kind) {
     case T_EMPTY: case T_EMPTY_P: n = 0; break;
     case T_SINGLE: n = 1; break;
+    case T_BIG: case T_BIG_V4: n = 3 + r.below(18); break;
     case T_EXACT: case T_EXACT_UNORD: case T_V4_EXACT: n = 2 + r.below(k - 2); break;
     default: n = 2 * k + r.below(4 * k); break;
   }
@@ -87,14 +89,14 @@ static Bytes theta_image(Rng& r, bool T, int kind) {
   auto s = theta_state(r, T, kind);
   const bool ordered = !(kind == T_EXACT_UNORD || kind == T_EST_UNORD);
   compact_theta_sketch c = s.compact(ordered);
-  auto v = (kind == T_V4_EXACT || kind == T_V4_EST) ? c.serialize_compressed() : c.serialize();
+  auto v = (kind == T_V4_EXACT || kind == T_V4_EST || kind == T_BIG_V4) ? c.serialize_compressed() : c.serialize();
   return Bytes(v.begin(), v.end());
 }
 
 // ------------------------------------------------------------------ registration
 std::vector<Target> targets() {
   std::vector<Target> t;
-  struct { const char* name; int k; } tks[] = {{"empty", T_EMPTY}, {"empty_p", T_EMPTY_P}, {"single", T_SINGLE}, {"exact", T_EXACT}, {"exact_unordered", T_EXACT_UNORD},
+  struct { const char* name; int k; } tks[] = {{"empty", T_EMPTY}, {"empty_p", T_EMPTY_P}, {"single", T_SINGLE}, {"exact", T_EXACT}, {"exact_unordered", T_EXACT_UNORD}, {"bigcfg_few", T_BIG}, {"bigcfg_few_compressed", T_BIG_V4},
     {"estimation", T_EST}, {"estimation_unordered", T_EST_UNORD}, {"compressed_exact", T_V4_EXACT}, {"compressed_estimation", T_V4_EST}};
   for (auto& k : tks) {
     const int kk = k.k;
